@@ -43,6 +43,17 @@ theorem supsOf_registered (G : GLang) (c : GCfg) (hc : c.withCanonicalTypes = fa
   obtain ⟨uri, hu⟩ := typeUri_canonical G s hm
   exact ⟨uri, by rw [hg]; exact lookupType_append_some (initGraph_lookup G c hc s hm uri hu)⟩
 
+/-- the same whoever decides `canonical` (`ov = some b`: the source branch of `addExpr`) -/
+theorem annotateType_perm_canonical_ov (G : GLang) (c : GCfg) (hc : c.withCanonicalTypes = false) (g : GState)
+    (l : List (Term × Node)) (hg : g.typeNodes = (initGraph G c).typeNodes ++ l) (root : Node) (cur : Nat)
+    (ty : Term) (mf : Bool) (ov : Option Bool) (sups : List Ty) (hp : sups.Perm (supsOf G ty)) (g1 : GState)
+    (h : annotateType G c g root cur ty mf ov = .ok g1) :
+    ∃ g2, annotateTypeWith G c g root cur ty sups ov = .ok g2 ∧ SameBut g1 g2 ∧
+      ∀ t, t ∈ g1.triples ↔ t ∈ g2.triples := by
+  rw [annotateType_eq_ov] at h
+  exact annotateTypeWith_perm_ov G c g root cur ty (supsOf G ty) sups ov (fun s => (hp.mem_iff).symm)
+    (supsOf_registered G c hc g l hg ty) g1 h
+
 theorem annotateType_perm_canonical (G : GLang) (c : GCfg) (hc : c.withCanonicalTypes = false) (g : GState)
     (l : List (Term × Node)) (hg : g.typeNodes = (initGraph G c).typeNodes ++ l) (root : Node) (cur : Nat)
     (ty : Term) (mf : Bool) (sups : List Ty) (hp : sups.Perm (supsOf G ty)) (g1 : GState)
